@@ -12,7 +12,7 @@ import random
 from lib import gram
 
 ID = 'C18'
-TECHNIQUE = 'runtime monitor: list_names vs identifiers known by construction; recording names mapping logs every key the evaluator asks the host for'
+TECHNIQUE = 'runtime monitor: list_names vs identifiers known by construction; recording names mapping logs every key the evaluator asks the host for; coverage-guided texts (atheris) vs the reference lexer'
 RULE = ('(a) random derivations of the grammar (and one-token mutants: list_names needs no parsable text) whose identifiers are drawn from plain names, '
         'Unicode names, names that look like keywords with a prefix/suffix (notx, in1, Truex, r, rr, ar), builtin names and %...% names containing blanks, '
         'dots, operators, quotes and #; rendered both with blanks and TIGHT (no blank wherever two tokens may legally abut: f("x"), a#c, "s"in x, 1a, x.y, '
